@@ -366,6 +366,25 @@ func (d *D) WithRuntimeVariants(specs []Spec, every int, pick func(Spec) bool) [
 	return out
 }
 
+// Replicate returns specs followed by n-1 copies of each that draw from different PRNG streams (thorough tiers of the
+// real-time checks: every placement/scenario is one execution, so depth comes from repeating it).
+func (d *D) Replicate(specs []Spec, n int) []Spec {
+	out := append([]Spec(nil), specs...)
+	for k := 1; k < n; k++ {
+		for _, s := range specs {
+			c := s
+			c.Name = fmt.Sprintf("%s-r%d", s.Name, k)
+			c.Args = map[string]string{}
+			for a, b := range s.Args {
+				c.Args[a] = b
+			}
+			c.Shard = s.Shard + 1000*k
+			out = append(out, c)
+		}
+	}
+	return out
+}
+
 // RunWorkers runs the given specs as child processes, at most par at a time, and merges their results.
 func (d *D) RunWorkers(specs []Spec, par int) []*WorkerOut {
 	if par <= 0 {
